@@ -106,6 +106,8 @@ type world struct {
 	dead      bool                // a receive panicked / failed internally: the inbox is wedged, history abandoned
 	deep      *deep               // state of the deep operations (xcalls.go)
 	bl        *blState            // C10 suite bridgeliq (bridgeliq.go)
+	unlocked  map[string]bool     // liquidity stake entries whose expiration the administrator brought forward (lockbounds.go)
+	revoking  map[string]uint64   // pillar name -> frontier height at which its owner's Revoke was sent (lockbounds.go)
 	pending   int
 }
 
@@ -139,6 +141,10 @@ func (w *world) ctxFor(b *nom.AccountBlock) vm_context.AccountVmContext {
 
 // send builds, signs and applies a user send; returns the accepted block or nil
 func (w *world) send(kp *wallet.KeyPair, to types.Address, zts types.ZenonTokenStandard, amount *big.Int, data []byte, tag string) *nom.AccountBlock {
+	if w.locks && to == types.PillarContract && w.wouldRevokeLastPillar(kp, data) {
+		w.out.Count("locks:revoke-of-the-last-active-pillar-not-sent")
+		return nil
+	}
 	b := &nom.AccountBlock{BlockType: nom.BlockTypeUserSend, Address: kp.Address, ToAddress: to, TokenStandard: zts, Amount: new(big.Int).Set(amount), Data: data}
 	w.nd.Fill(b)
 	if base, err := vm.GetBasePlasmaForAccountBlock(w.ctxFor(b), b); err == nil {
@@ -321,6 +327,7 @@ func (w *world) receiveOne(c *contractDef, s *nom.AccountBlock) {
 			w.blAfter(c, s, blp, ma, exec.ReturnedError)
 		}
 		if w.locks && exec.ReturnedError == nil {
+			w.checkLockAccepted(c, mname, s, ma)
 			if isReleaseMethod(c, mname) {
 				w.checkRelease(c, s, rel, blk, ma)
 			} else if c.Name == "stake" || c.Name == "plasma" || c.Name == "htlc" || c.Name == "pillar" || c.Name == "sentinel" || c.Name == "liquidity" || c.Name == "bridge" {
